@@ -26,7 +26,7 @@ func selfRecursive(c *core.Ctx, rule string) []*ssa.Function {
 			for _, in := range b.Instrs {
 				switch in := in.(type) {
 				case ssa.CallInstruction:
-					if cal := in.Common().StaticCallee(); cal != nil && c.P.InScope(cal) {
+					if cal := core.Callee(in.Common()); cal != nil && c.P.InScope(cal) {
 						calls[fn] = append(calls[fn], cal)
 					}
 				case *ssa.MakeClosure:
@@ -89,7 +89,7 @@ func ruleRecursion(c *core.Ctx, rule string) {
 			for _, b := range fn.Blocks {
 				for _, in := range b.Instrs {
 					ci, isCall := in.(ssa.CallInstruction)
-					if !isCall || ci.Common().StaticCallee() != fn {
+					if !isCall || core.Callee(ci.Common()) != fn {
 						continue
 					}
 					if !guardedByLevel(lvl, in.Block()) {
@@ -104,6 +104,12 @@ func ruleRecursion(c *core.Ctx, rule string) {
 				c.Discharge(rule, fname, "depth-counter", pos, fmt.Sprintf("%s grows by %d per call and every recursive call is dominated by %s < bound", lvl.Name(), step, lvl.Name()))
 				continue
 			}
+		}
+		// a list that gets shorter: every recursive call passes p[k:] (k >= 1) for a slice parameter p and lies on the
+		// side of a test on which len(p) is not zero
+		if ok, why := shrinksList(fn); ok {
+			c.Discharge(rule, fname, "shrinking-list", pos, why)
+			continue
 		}
 		// structural descent on the tree type
 		if treeT != nil {
@@ -124,6 +130,92 @@ func ruleRecursion(c *core.Ctx, rule string) {
 	if treeT != nil {
 		ruleTreeAcyclic(c, rule, treeT)
 	}
+}
+
+// shrinksList: a ranking argument on the length of a slice parameter.
+func shrinksList(fn *ssa.Function) (bool, string) {
+	for pi, prm := range fn.Params {
+		if _, ok := prm.Type().Underlying().(*types.Slice); !ok {
+			continue
+		}
+		calls, good := 0, 0
+		for _, b := range fn.Blocks {
+			for _, in := range b.Instrs {
+				ci, isCall := in.(ssa.CallInstruction)
+				if !isCall || core.Callee(ci.Common()) != fn {
+					continue
+				}
+				calls++
+				args := ci.Common().Args
+				if pi >= len(args) {
+					continue
+				}
+				sl, ok := args[pi].(*ssa.Slice)
+				if !ok || sl.X != ssa.Value(prm) || sl.High != nil {
+					continue
+				}
+				lo, ok := sl.Low.(*ssa.Const)
+				if !ok || lo.Value == nil || lo.Int64() < 1 {
+					continue
+				}
+				// dominated by a test of len(prm) on the non-empty side
+				if nonEmptyHere(prm, in.Block()) {
+					good++
+				}
+			}
+		}
+		if calls > 0 && calls == good {
+			return true, fmt.Sprintf("every recursive call passes %s[k:] with k >= 1 and is reached only while %s is not empty: the list gets shorter with every call", prm.Name(), prm.Name())
+		}
+	}
+	return false, ""
+}
+
+// nonEmptyHere: block is dominated by a test of len(prm) against 0 (or len(prm) > 0 / >= 1) on the side where the
+// list is not empty.
+func nonEmptyHere(prm *ssa.Parameter, block *ssa.BasicBlock) bool {
+	for d := block; d != nil; d = d.Idom() {
+		idom := d.Idom()
+		if idom == nil {
+			break
+		}
+		ifi, ok := idom.Instrs[len(idom.Instrs)-1].(*ssa.If)
+		if !ok {
+			continue
+		}
+		bo, ok := ifi.Cond.(*ssa.BinOp)
+		if !ok {
+			continue
+		}
+		isLen := func(v ssa.Value) bool {
+			call, ok := v.(*ssa.Call)
+			if !ok {
+				return false
+			}
+			b, ok := call.Call.Value.(*ssa.Builtin)
+			return ok && b.Name() == "len" && len(call.Call.Args) == 1 && call.Call.Args[0] == ssa.Value(prm)
+		}
+		k, isC := bo.Y.(*ssa.Const)
+		if !isLen(bo.X) || !isC || k.Value == nil {
+			continue
+		}
+		onTrue := idom.Succs[0] == d || idom.Succs[0].Dominates(d)
+		onFalse := idom.Succs[1] == d || idom.Succs[1].Dominates(d)
+		if onTrue == onFalse {
+			continue
+		}
+		n := k.Int64()
+		switch {
+		case bo.Op == token.EQL && n == 0 && onFalse,
+			bo.Op == token.NEQ && n == 0 && onTrue,
+			bo.Op == token.GTR && n >= 0 && onTrue,
+			bo.Op == token.GEQ && n >= 1 && onTrue,
+			bo.Op == token.LSS && n <= 1 && n >= 1 && onFalse,
+			bo.Op == token.LEQ && n == 0 && onFalse:
+			return true
+		}
+	}
+	return false
 }
 
 // guardedByLevel: some If dominating block compares the level parameter with an
@@ -212,7 +304,7 @@ func descendsTree(p *core.Program, fn *ssa.Function, treeT *types.Named) (bool, 
 			return derives(x.Tuple, depth+1)
 		case *ssa.Call:
 			// a method of the tree type on p (or a child) that returns one of the receiver's children
-			cal := x.Call.StaticCallee()
+			cal := core.Callee(&x.Call)
 			if cal != nil && cal.Signature.Recv() != nil && len(x.Call.Args) > 0 && returnsOwnChild(cal) {
 				a := x.Call.Args[0]
 				return a == ssa.Value(prm) || derives(a, depth+1)
@@ -231,7 +323,7 @@ func descendsTree(p *core.Program, fn *ssa.Function, treeT *types.Named) (bool, 
 	for _, b := range fn.Blocks {
 		for _, in := range b.Instrs {
 			ci, ok := in.(ssa.CallInstruction)
-			if !ok || ci.Common().StaticCallee() != fn {
+			if !ok || core.Callee(ci.Common()) != fn {
 				continue
 			}
 			n++
@@ -272,6 +364,10 @@ func returnsOwnChild(fn *ssa.Function) bool {
 				}
 				ok = true
 			default:
+				// the value variable of a range over the receiver's own Children, possibly carried through a scan
+				if returnsRangedChild(fn) {
+					return true
+				}
 				return false
 			}
 		}
@@ -324,7 +420,7 @@ func ruleTreeAcyclic(c *core.Ctx, rule string, treeT *types.Named) {
 					for _, gb := range g.Blocks {
 						for _, gi := range gb.Instrs {
 							ci, isCall := gi.(ssa.CallInstruction)
-							if !isCall || ci.Common().StaticCallee() != fn {
+							if !isCall || core.Callee(ci.Common()) != fn {
 								continue
 							}
 							n++
@@ -348,7 +444,7 @@ func freshNode(v ssa.Value) bool {
 	case *ssa.Alloc:
 		return true
 	case *ssa.Call:
-		cal := x.Call.StaticCallee()
+		cal := core.Callee(&x.Call)
 		if cal == nil {
 			return false
 		}
@@ -378,7 +474,7 @@ func ruleAborts(c *core.Ctx, rule string) {
 				case *ssa.Panic:
 					c.Violate(rule, fname, "panic", c.P.Pos(in.Pos()), "explicit panic in repository code reachable from a command", nil)
 				case ssa.CallInstruction:
-					cal := in.Common().StaticCallee()
+					cal := core.Callee(in.Common())
 					if cal == nil {
 						continue
 					}
@@ -447,7 +543,7 @@ func isTextTemplateClone(v ssa.Value) bool {
 	if !ok {
 		return false
 	}
-	cal := call.Call.StaticCallee()
+	cal := core.Callee(&call.Call)
 	return cal != nil && cal.String() == "(*text/template.Template).Clone"
 }
 
@@ -469,7 +565,7 @@ func templateTexts(v ssa.Value) ([]string, bool) {
 	if !ok {
 		return nil, false
 	}
-	cal := call.Call.StaticCallee()
+	cal := core.Callee(&call.Call)
 	if cal == nil || cal.String() != "(*text/template.Template).Parse" || len(call.Call.Args) != 2 {
 		return nil, false
 	}
@@ -513,7 +609,7 @@ func constStrings(v ssa.Value, depth int) ([]string, bool) {
 			for _, b := range g.Blocks {
 				for _, in := range b.Instrs {
 					ci, ok := in.(ssa.CallInstruction)
-					if !ok || ci.Common().StaticCallee() != fn || idx < 0 || idx >= len(ci.Common().Args) {
+					if !ok || core.Callee(ci.Common()) != fn || idx < 0 || idx >= len(ci.Common().Args) {
 						continue
 					}
 					s, ok := constStrings(ci.Common().Args[idx], depth+1)
@@ -549,7 +645,7 @@ func constStrings(v ssa.Value, depth int) ([]string, bool) {
 		}
 		return out, len(out) > 0
 	case *ssa.Call:
-		cal := x.Call.StaticCallee()
+		cal := core.Callee(&x.Call)
 		if cal == nil || len(cal.Blocks) == 0 {
 			return nil, false
 		}
@@ -694,7 +790,7 @@ func contextRoots(p *core.Program, fn *ssa.Function, depth int) []*ssa.Function 
 	for _, g := range p.Funcs {
 		for _, b := range g.Blocks {
 			for _, in := range b.Instrs {
-				if ci, ok := in.(ssa.CallInstruction); ok && ci.Common().StaticCallee() == fn && g != fn && !seen[g] {
+				if ci, ok := in.(ssa.CallInstruction); ok && core.Callee(ci.Common()) == fn && g != fn && !seen[g] {
 					seen[g] = true
 					callers = append(callers, g)
 				}
@@ -765,11 +861,11 @@ func nonEmptyKnown(x *absint.Exec, s *absint.State, v absint.Value) bool {
 func init() {
 	register(&Property{
 		ID:    "C08",
-		Rules: []string{"C08-R1", "C08-R2", "C08-R3", "C08-R4", "C08-R5", "C08-R6", "C08-R7", "C08-R8"},
+		Rules: []string{"C08-R1", "C08-R2", "C08-R3", "C08-R4", "C08-R5", "C08-R6", "C08-R7", "C08-R8", "C08-R9", "C08-R10"},
 		Explain: "Decides the crash and hang mechanisms visible in the shape of this code (not general panic freedom): C08-R1 the (record, err) contract of ParseCallback on both sides — the parser passes (non-nil, nil) or (nil, non-nil) and no callback dereferences the record when an error is given; " +
 			"C08-R2 every recursive function has a ranking argument (depth counter bounded from above on the path to the call, or descent into a tree whose nodes are only linked to freshly allocated nodes); " +
 			"C08-R3 no panic/log.Fatal/os.Exit outside main.main, template.Must and regexp.MustCompile only on constants that parse; C08-R8 on the path where os.Open fails nothing but Close is called on the nil file; C08-R7 where acc[k][i] indexes a plain lookup in an accumulator the function filled itself, every key added is known to equal k; C08-R6 WithFileReaders stores a reader for every requested name before calling back; C08-R4 the accumulator map is written only when allocated; " +
-			"C08-R5 constant-position string indexing is reached only where the string is known non-empty.",
+			"C08-R5 constant-position string indexing is reached only where the string is known non-empty. C08-R9 an error handed to a wrapping constructor whose Error() calls the wrapped error's Error() is known to be non-nil at the call; C08-R10 no loop has a stutter path and no trimming loop can leave its text unchanged; every loop is listed with its termination argument.",
 		NotDecided: "index/slice bounds and nil dereferences in general, stack exhaustion under an absurd --maxdepth, termination of third-party code, a reader that never ends",
 		Run: func(c *core.Ctx) {
 			analyseParserLoop(c, map[string]bool{"C08-R1": true})
@@ -781,6 +877,11 @@ func init() {
 			ruleFileReaders(c, "C08-R6")
 			ruleUncheckedLookup(c, "C08-R7")
 			ruleNilFile(c, "C08-R8")
+			ruleWrappedErrorsSet(c, "C08-R9")
+			ruleLoopProgress(c, "C08-R10")
+		},
+		Canary: func(c *core.Ctx) {
+			ruleLoopProgress(c, "C08-R10")
 		},
 	})
 }
@@ -794,21 +895,27 @@ func ruleFileReaders(c *core.Ctx, rule string) {
 		return
 	}
 	var fn *ssa.Function
-	for _, b := range ctor.Blocks {
-		for _, in := range b.Instrs {
-			st, ok := in.(*ssa.Store)
-			if !ok {
-				continue
-			}
-			fa, ok := st.Addr.(*ssa.FieldAddr)
-			if !ok || fieldName(fa.X.Type(), fa.Field) != "WithFileReaders" {
-				continue
-			}
-			switch v := st.Val.(type) {
-			case *ssa.Function:
-				fn = v
-			case *ssa.MakeClosure:
-				fn, _ = v.Fn.(*ssa.Function)
+	// the constructor, or a function of the package it delegates to (newCmdUtils(fs, …))
+	for _, g := range c.P.Funcs {
+		if core.FnPkgPath(g) != core.FnPkgPath(ctor) {
+			continue
+		}
+		for _, b := range g.Blocks {
+			for _, in := range b.Instrs {
+				st, ok := in.(*ssa.Store)
+				if !ok {
+					continue
+				}
+				fa, ok := st.Addr.(*ssa.FieldAddr)
+				if !ok || fieldName(fa.X.Type(), fa.Field) != "WithFileReaders" || !strings.HasSuffix(fa.X.Type().String(), "utils.CmdUtils") {
+					continue
+				}
+				switch v := st.Val.(type) {
+				case *ssa.Function:
+					fn = v
+				case *ssa.MakeClosure:
+					fn, _ = v.Fn.(*ssa.Function)
+				}
 			}
 		}
 	}
@@ -817,6 +924,7 @@ func ruleFileReaders(c *core.Ctx, rule string) {
 	}
 	fname := core.FuncName(fn)
 	x := newExec(c)
+	x.Hooks.Devirt = uniqueImpl(c) // a file-system interface with the one real implementation
 	var bad []string
 	iterations, calls := 0, 0
 	x.Hooks.Call = func(x *absint.Exec, s *absint.State, site ssa.CallInstruction, callee *ssa.Function, fnv absint.Value, args []absint.Value) (absint.Value, bool) {
@@ -1153,7 +1261,7 @@ func ruleNilFile(c *core.Ctx, rule string) {
 		for _, b := range fn.Blocks {
 			for _, in := range b.Instrs {
 				if ci, ok := in.(ssa.CallInstruction); ok {
-					if cal := ci.Common().StaticCallee(); cal != nil && openers[cal.String()] {
+					if cal := core.Callee(ci.Common()); cal != nil && openers[cal.String()] {
 						opens = true
 					}
 				}
